@@ -30,6 +30,7 @@ pub mod plonk;
 pub mod plonkv;
 pub mod transcript;
 pub mod smt;
+pub mod stark;
 
 pub const P: u64 = 0xFFFF_FFFF_0000_0001;
 
